@@ -413,6 +413,9 @@ pub enum ReadSched {
     Fixed(usize),
     Random { seed: u64, max: usize },
     BufLike(usize),
+    /// chunks of at most `chunk` bytes; every `every`-th call fails with ErrorKind::Interrupted (EINTR, never twice in
+    /// a row): a retryable error, the read is simply made again
+    Interrupted { chunk: usize, every: u32 },
 }
 
 #[derive(Clone, Debug, PartialEq, Serialize, Deserialize)]
@@ -631,6 +634,11 @@ impl SimStream {
 impl Read for SimStream {
     fn read(&mut self, buf: &mut [u8]) -> std::io::Result<usize> {
         self.reads += 1;
+        if let ReadSched::Interrupted { every, .. } = &self.sched {
+            if *every > 1 && self.reads % (*every as u64) == 0 {
+                return Err(std::io::Error::new(std::io::ErrorKind::Interrupted, "simulated EINTR"));
+            }
+        }
         let avail = (self.data.len() as u64).saturating_sub(self.pos) as usize;
         let mut n = buf.len().min(avail);
         if n > 0 {
@@ -638,6 +646,7 @@ impl Read for SimStream {
                 ReadSched::Full => n,
                 ReadSched::One => 1,
                 ReadSched::Fixed(k) => n.min((*k).max(1)),
+                ReadSched::Interrupted { chunk, .. } => n.min((*chunk).max(1)),
                 ReadSched::Random { max, .. } => n.min(1 + self.rng.below((*max).max(1) as u64) as usize),
                 ReadSched::BufLike(cap) => {
                     // like a BufReader: serve from an internal buffer of `cap` bytes, refilled when empty
